@@ -20,6 +20,8 @@ func rulesC05(c *Ctx) {
 	c05Builders(c)
 	ruleFailureResult(c)
 	lockDiscipline(c, "ratelimiter")
+	c.Rule("fresh-executor")
+	c01Self(c)
 }
 
 // ---- executor --------------------------------------------------------------------------------------------
@@ -135,10 +137,17 @@ func c05Wait(c *Ctx) {
 				bad("non-returning path")
 				continue
 			}
-			rs := eventsWhere(p, func(e *Event) bool { return isCall(e, spec.reserve) })
-			if len(rs) != 1 {
-				bad("must reserve exactly once (" + spec.reserve + ")")
+			rs := eventsWhere(p, func(e *Event) bool {
+				return isCall(e, spec.reserve) || isCall(e, "acquirePermits") || isCall(e, "ReservePermits")
+			})
+			if len(rs) != 1 || rs[0].Method != spec.reserve {
+				bad("must touch the limiter's state exactly once, through " + spec.reserve + " (a cancelled or refused acquire must not hand permits back or take more: later reservations already depend on it)")
 				continue
+			}
+			for _, e := range impure(p) {
+				if e.Kind == EvCall && e != rs[0] && !isCall(e, "NewTimer") && !isCall(e, "Stop") && !isCall(e, "Sleep") && !isCall(e, "Background") {
+					bad("unexpected effect in a blocking acquire: " + e.String())
+				}
 			}
 			w := rs[0].Res[0]
 			ret := p.Rets[0]
